@@ -117,14 +117,14 @@ def run(r):
         lits = []
         for c in small:
             o = idx[id(c)]
-            lits.append(f"(match load_module_outcome true {C.blist(c['bytes'])} with Returned => [0] | Raised e => [1; err_code e] end, [{o['cls'] if isinstance(o, dict) else 9}])")
+            lits.append(f"(match header_outcome {C.blist(c['bytes'])} with Returned => [0] | Raised e => [1; err_code e] end, [{o['cls'] if isinstance(o, dict) else 9}])")
         check = "fun c => match fst c, snd c with [0], [0] => true | [1; 11], [1] => true | [0], [1] => true | _, _ => false end"
         bad, errs = C.coq_cases(r.wd, "outc", HEADER, "list Z * list Z", check, lits, chunk=150)
         if errs:
             raise RuntimeError(errs[0])
         for b in bad[:3]:
             r.violation({"component": "load_module outcome vs model", "input_bytes": small[b]["bytes"], "kind": small[b]["kind"], "impl": idx[id(small[b])],
-                         "why": "the model predicts ImportError (or a return) where the implementation did the opposite; allowed: model returns but the implementation rejects text that is not UTF-8"})
+                         "why": "the header stage of the model rejects this file (ImportError) but the implementation returned, or raised something else"})
         r.cov["model_outcome_comparisons"] = len(lits)
     except SystemExit:
         raise
